@@ -237,7 +237,11 @@ func c12HostPolicyIn(c *Ctx, rule string, fn *ssa.Function, depth int) {
 			c.OK(rule, k, e.Pos(), "a configured entry chosen by selectRandomHost")
 			continue
 		}
-		gEq := GEq(isHostsElem, func(x ssa.Value) bool { return sameLoc(x, v) })
+		isHostsSlice := func(x ssa.Value) bool {
+			b, f, ok := fieldLoad(strip(x))
+			return ok && f.Name() == "hosts" && b == ssa.Value(hP)
+		}
+		gEq := GOr(GEq(isHostsElem, func(x ssa.Value) bool { return sameLoc(x, v) }), GContains(isHostsSlice, func(x ssa.Value) bool { return sameLoc(x, v) }))
 		ok1, _ := mustPass(fn, e, gEq)
 		ok2, why := mustPass(fn, e, gAny)
 		switch {
